@@ -50,11 +50,17 @@ func (b *BitSet) Equal(other *BitSet) bool {
 	if b.set != other.set {
 		return false
 	}
-	if len(b.data) != len(other.data) {
-		return false
+	long, short := b.data, other.data
+	if len(long) < len(short) {
+		long, short = short, long
 	}
-	for i := range b.data {
-		if b.data[i] != other.data[i] {
+	for i := range short {
+		if short[i] != long[i] {
+			return false
+		}
+	}
+	for _, word := range long[len(short):] {
+		if word != 0 {
 			return false
 		}
 	}
